@@ -23,7 +23,7 @@ SHARDS = {'quick': 16, 'thorough': 64}
 TIMEOUT = {'quick': 1500, 'thorough': 7200}
 MUST_HIT = ['Count.association', 'Count.uniqueness', 'Count.is_consistent', 'Count.restricted-rel',
             'Count.restricted-kind', 'Count.subtype', 'Cli.main-return', 'Cli.process-exit-status',
-            'Cli.bridgepoint-main', 'Cli.bridgepoint-all-associations-all-classes', 'Cli.bridgepoint-r-k',
+            'Count.subtype-after-history', 'Cli.bridgepoint-main', 'Cli.bridgepoint-all-associations-all-classes', 'Cli.bridgepoint-r-k',
             'Cli.bridgepoint-all-associations-k', 'Cli.bridgepoint-r-all-classes', 'Count.null-lowercase-unique_id', 'Count.nonzero-association',
             'Count.nonzero-uniqueness', 'Count.consistent-model']
 MUST_REACH = ['xtuml/consistency_check.py:check_link_integrity',
@@ -256,6 +256,40 @@ def subtype_check(ctx, rng):
         if got != lacking:
             raise Mismatch('subtype-count', 'check_subtype_integrity reports %d, %d supertype instances '
                            'lack a subtype' % (got, lacking))
+    # ... and after an API history: subtypes unrelated, deleted, added, migrated
+    sups = dict((x.Id, x) for x in m.select_many('Sup'))
+    sub_of = {}
+    for kind in ('S1', 'S2'):
+        for x in m.select_many(kind):
+            sub_of[x.Id] = x
+    log = []
+    for _ in range(rng.randint(0, 6)):
+        if not sups:
+            break
+        i = rng.choice(sorted(sups))
+        op = rng.choice(('unrelate', 'delete', 'add', 'migrate'))
+        if op in ('unrelate', 'delete', 'migrate') and i in sub_of:
+            if op == 'delete':
+                xtuml.delete(sub_of.pop(i))
+            else:
+                xtuml.unrelate(sub_of.pop(i), sups[i], 7)
+            if op == 'migrate':
+                nw = m.new(rng.choice(('S1', 'S2')))
+                xtuml.relate(nw, sups[i], 7)
+                sub_of[i] = nw
+        elif op == 'add' and i not in sub_of:
+            nw = m.new(rng.choice(('S1', 'S2')))
+            xtuml.relate(nw, sups[i], 7)
+            sub_of[i] = nw
+        else:
+            continue
+        log.append((op, i))
+        ctx.hit('Count.subtype-after-history')
+        want = len([1 for j in sups if j not in sub_of])
+        got = xtuml.check_subtype_integrity(m, 'Sup', rng.choice((7, 'R7')))
+        if got != want:
+            raise Mismatch('subtype-count', 'after the history %r check_subtype_integrity reports %d, %d supertype '
+                           'instances lack a subtype' % (log, got, want))
     return lacking
 
 
